@@ -349,19 +349,26 @@ class Model:
         buf.append(self.call(msgid, st_, mapping=mapping))
         return j
 
+    def implicit(self):
+        """Is text translated implicitly here?  Not inside an element marked
+        i18n:translate (its text is part of that element's message, which is
+        translated exactly once); a named block inside stands for itself."""
+        return self.case["implicit_translate"] and \
+            getattr(self, "imp", True)
+
     def nodes(self, nodes, st_, buf, tctx):
         skip_to = 0
         for k, n in enumerate(nodes):
             if k < skip_to:
                 continue
-            if self.case["implicit_translate"] and n[0] in ("text", "interp"):
+            if self.implicit() and n[0] in ("text", "interp"):
                 j = self.implicit_run(nodes, k, st_, buf)
                 if j is not None:
                     skip_to = j
                     continue
             if n[0] == "text":
                 self.note_text(nodes, k, n[1])
-                if self.case["implicit_translate"] and n[1].strip():
+                if self.implicit() and n[1].strip():
                     m = re.search(r"(\s*)(.*\S)(\s*)", n[1], re.S)
                     norm = normalise(m.group(2))
                     buf.append(m.group(1))
@@ -384,7 +391,9 @@ class Model:
         sep = self.ws
         if "name" in i:
             nbuf = []
+            saved, self.imp = getattr(self, "imp", True), True
             self.elem_guarded(e, st_, nbuf, tctx, sep)
+            self.imp = saved
             buf.append("${%s}" % i["name"])
             tctx["mapping"][i["name"]] = "".join(nbuf)
             return
@@ -499,7 +508,9 @@ class Model:
             # every i18n:name written inside this translation (not inside a
             # nested one) is part of the mapping, rendered or not
             ctx = {"mapping": {n: "" for n in lexical_names(e["children"])}}
+            saved, self.imp = getattr(self, "imp", True), False
             self.nodes(e["children"], st_, cbuf, ctx)
+            self.imp = saved
             content = normalise("".join(cbuf))
             explicit = i["translate"]
             if explicit:
